@@ -507,18 +507,20 @@ impl SparqlDatabase {
             let p = self.decode_any(triple.predicate).unwrap_or_default();
             let o = self.decode_any(triple.object).unwrap_or_default();
 
-            let s_str = if s.starts_with("<<") {
+            // Same term writer as generate_nquads: blank nodes stay bare, every
+            // absolute IRI is bracketed, literals are escaped.
+            let s_str = if s.starts_with("<<") || s.starts_with("_:") {
                 s
             } else {
                 format!("<{}>", s)
             };
             let p_str = format!("<{}>", p);
-            let o_str = if o.starts_with("<<") {
+            let o_str = if o.starts_with("<<") || o.starts_with("_:") {
                 o
-            } else if o.starts_with("http://") || o.starts_with("https://") {
+            } else if looks_like_absolute_iri(&o) {
                 format!("<{}>", o)
             } else {
-                format!("\"{}\"", o)
+                format!("\"{}\"", escape_ntriples_literal(&o))
             };
 
             output.push_str(&format!("{} {} {} .\n", s_str, p_str, o_str));
